@@ -59,18 +59,30 @@ theorem finalize_req (env : Env) (m : Msg) (c : Conn) (v : String)
       have h2 : ¬ (c.sess.nextIn ≥ c.maxResend) := by omega
       have haw' : (c.state == st_RESENDREQ_AWAITING) = true := by simp [haw]
       simp only [M.bind_apply, M.get_apply, haw', if_true, h1, M.assert_true_apply,
-        h2, if_false, M.modify_apply, List.nil_append]
-      obtain ⟨p1, p2, p3, p4, p5, p6⟩ := hpersist
-        { c with sess := { c.sess with nextIn := c.sess.nextIn + 1 }, lastTime := env.now } rfl
-      simp only [p1, p2, p3, p4, p5, true_and]
-      exact p6
+        h2, if_false, List.nil_append]
+      split
+      · simp only [M.bind_apply, M.modify_apply, List.nil_append]
+        obtain ⟨p1, p2, p3, p4, p5, p6⟩ := hpersist
+          { c with sess := { c.sess with nextIn := c.sess.nextIn + 1 }, lastTime := env.now } rfl
+        simp only [p1, p2, p3, p4, p5, true_and]
+        exact p6
+      · obtain ⟨p1, p2, p3, p4, p5, p6⟩ := hpersist
+          { c with sess := { c.sess with nextIn := c.sess.nextIn + 1 } } rfl
+        simp only [p1, p2, p3, p4, p5, true_and]
+        exact p6
     · have haw' : (c.state == st_RESENDREQ_AWAITING) = false := by simpa using haw
       simp only [M.bind_apply, M.get_apply, haw', Bool.false_eq_true, if_false,
-        M.modify_apply, List.nil_append]
-      obtain ⟨p1, p2, p3, p4, p5, p6⟩ := hpersist
-        { c with sess := { c.sess with nextIn := c.sess.nextIn + 1 }, lastTime := env.now } rfl
-      simp only [p1, p2, p3, p4, p5, true_and]
-      exact p6
+        List.nil_append]
+      split
+      · simp only [M.bind_apply, M.modify_apply, List.nil_append]
+        obtain ⟨p1, p2, p3, p4, p5, p6⟩ := hpersist
+          { c with sess := { c.sess with nextIn := c.sess.nextIn + 1 }, lastTime := env.now } rfl
+        simp only [p1, p2, p3, p4, p5, true_and]
+        exact p6
+      · obtain ⟨p1, p2, p3, p4, p5, p6⟩ := hpersist
+          { c with sess := { c.sess with nextIn := c.sess.nextIn + 1 } } rfl
+        simp only [p1, p2, p3, p4, p5, true_and]
+        exact p6
 
 /-- the `raised` effect `M.run` appends -/
 def raisedOf {α} : Except Exc α → List Effect
